@@ -33,7 +33,7 @@ class HarnessError(Exception):
 
 
 BRANCH_TIMEOUT_MS = 2000
-PROVE_TIMEOUT_MS = 45000
+PROVE_TIMEOUT_MS = 120000      # wall-clock: generous, so that a loaded machine does not turn a 20 s query into "undecided"
 PRIMARY_TIMEOUT_MS = 150
 import os as _os
 SLOW_LOG_S = float(_os.environ.get('SYMX_SLOW', '1e9'))
